@@ -23,6 +23,8 @@ var c27Prefixes = [...]string{
 	"http://a/?",
 	"http://a/p?q#",
 	"http://a/%",
+	"http://a%",
+	"http://a%2",
 }
 
 func c27Copy(b []byte) []byte { return append([]byte(nil), b...) }
